@@ -41,13 +41,18 @@ func SysScope(res *Result) (part int32, reason string) {
 
 type sysKey struct{ id, retries int }
 
-type sysPend struct { // a set at the bridge whose broker step has not been issued yet
+type sysPend struct { // a set handed to the bridge of a worker
 	w       int
+	tag     int
+	idx     int // index of the bp.handover event (the hook fires AFTER the send to the bridge: it can be logged late)
+	sentIdx int // index of the bp.sent.end event of the set (-1: none)
 	reqNo   int // 1<<30: no matching request seen by the simulated cluster
 	verdict string
 	app     bool
 	broker  int
-	done    bool
+	ids     []int
+	handed  bool // the handover choice has been emitted
+	done    bool // the broker choice has been emitted
 }
 
 func kindOfFlags(fl int) string {
@@ -108,6 +113,11 @@ func sysMakePlan(res *Result, P int) (*sysPlan, string) {
 		case "pp.recv":
 			if e.P == P {
 				curRecv = i
+			}
+		case "pp.abandon":
+			if e.P == P {
+				// the partition producer drops its worker without a chaser: not a behaviour of the system model
+				return nil, "worker-abandoned"
 			}
 		case "wg.add.fin":
 			if e.A == P {
@@ -191,14 +201,21 @@ func sysClass(code int) string {
 	return "fatal"
 }
 
-// SysLines translates the scenario's hook events of partition `part` into choices of the system model.
-// workers = number of broker workers the partition producer selected; note != "": the run cannot be translated.
+// SysLines is SysLinesX without the count of early handovers.
 func SysLines(res *Result, part int32) (ops []string, workers int, note string) {
+	ops, workers, _, note = SysLinesX(res, part)
+	return
+}
+
+// SysLinesX translates the scenario's hook events of partition `part` into choices of the system model.
+// workers = number of broker workers the partition producer selected; early = number of handover choices emitted
+// before their (late) hook event; note != "": the run is not translated (reason).
+func SysLinesX(res *Result, part int32) (ops []string, workers int, early int, note string) {
 	P := int(part)
 	ev := res.Events
 	pl, note := sysMakePlan(res, P)
 	if note != "" {
-		return nil, 0, note
+		return nil, 0, 0, note
 	}
 	emit := func(f string, a ...interface{}) { ops = append(ops, "sys "+fmt.Sprintf(f, a...)) }
 	emit("begin %d", res.Sc.RetryMax)
@@ -233,8 +250,9 @@ func SysLines(res *Result, part int32) (ops []string, workers int, note string) 
 	synPushed := map[int]bool{}
 	deferred := map[int][]string{}
 	waitTok := map[int]int{}
-	var pend []*sysPend
-	usedBatch := map[int]bool{}
+	var pends []*sysPend
+	pendAt := map[int]*sysPend{} // index of a bp.handover event -> its set
+	undetermined := ""
 	ldr := 0
 	issue := func(p *sysPend) {
 		if p.done {
@@ -251,31 +269,126 @@ func SysLines(res *Result, part int32) (ops []string, workers int, note string) 
 		}
 		emit("broker %d %s %d", p.w, p.verdict, a)
 	}
-	flushUpTo := func(reqNo int) {
+	// flushUpTo issues the broker steps of all sets the simulated cluster processed up to request `reqNo`, in
+	// request order (= the order of the appends).  The bp.handover hook of a worker fires after the send to its
+	// bridge, so a set can have been sent, processed and even overtaken by another worker's answer before its
+	// handover is in the event log: its handover choice is then emitted here, early - which is the real order
+	// provided the worker's run loop has logged nothing between position `at` and that hook; otherwise the order
+	// is not determined by the recorded facts and the scenario is skipped.
+	flushUpTo := func(reqNo int, at int) {
 		var l []*sysPend
-		for _, p := range pend {
+		for _, p := range pends {
 			if !p.done && p.reqNo <= reqNo && p.reqNo < 1<<30 {
 				l = append(l, p)
 			}
 		}
 		sort.Slice(l, func(i, j int) bool { return l[i].reqNo < l[j].reqNo })
 		for _, p := range l {
+			if !p.handed {
+				if p.idx <= at || p.sentIdx < 0 || p.sentIdx > at {
+					undetermined = "handover-order-undetermined"
+					return
+				}
+				for j := at; j < p.idx; j++ {
+					if isInput(ev[j], p.tag) || ((ev[j].Kind == "bp.add" || ev[j].Kind == "bp.bounce") && ev[j].B == p.tag) {
+						undetermined = "handover-order-undetermined"
+						return
+					}
+				}
+				emit("handover %d", p.w)
+				p.handed = true
+				early++
+			}
 			issue(p)
 		}
 	}
 	curPend := map[int]*sysPend{} // worker tag -> set at its bridge
-	sentGroups, handovers := map[int][][]int{}, map[int]int{}
+	// all sets handed to a bridge, with what the simulated cluster did with them and what the worker did after
+	// the answer (static: independent of the position at which the handover hook was logged)
 	{
+		sentGroups, sentEnd, handovers := map[int][][]int{}, map[int][]int{}, map[int]int{}
 		open := map[int][]int{}
-		for _, e := range ev {
+		for i, e := range ev {
 			switch e.Kind {
 			case "bp.sent":
 				open[e.A] = append(open[e.A], e.ID)
 			case "bp.sent.end":
 				sentGroups[e.A] = append(sentGroups[e.A], open[e.A])
+				sentEnd[e.A] = append(sentEnd[e.A], i)
 				delete(open, e.A)
 			}
 		}
+		for i, e := range ev {
+			if e.Kind != "bp.handover" {
+				continue
+			}
+			T := e.A
+			w, ok := pl.tagW[T]
+			if !ok {
+				continue
+			}
+			// the set: the k-th bp.sent group of this worker belongs to its k-th handover (the bridge goroutine may
+			// report the set before or after the run loop reports the handover)
+			var ids []int
+			pd := &sysPend{w: w, tag: T, idx: i, sentIdx: -1, reqNo: 1 << 30, broker: T / 4096, verdict: "conn"}
+			if k := handovers[T]; k < len(sentGroups[T]) {
+				ids = sentGroups[T][k]
+				pd.sentIdx = sentEnd[T][k]
+			}
+			handovers[T]++
+			inSet := map[int]bool{}
+			for _, x := range ids {
+				inSet[x] = true
+			}
+			pd.ids = ids
+			// the verdict: what the worker does after the answer has arrived
+			for j := i + 1; j < len(ev); j++ {
+				if ev[j].Kind == "bp.resp.end" && ev[j].A == T {
+					pd.verdict = ""
+					succ := false
+					for x := j + 1; x < nextInput(T, j); x++ {
+						switch {
+						case ev[x].Kind == "bp.closing" && ev[x].A == T:
+							pd.verdict = "conn"
+						case ev[x].Kind == "bp.verdict" && ev[x].B == T && ev[x].P == P && pd.verdict == "":
+							pd.verdict = sysClass(ev[x].A)
+						case ev[x].Kind == "ret.succ" && ev[x].P == P && inSet[ev[x].ID]:
+							succ = true
+						}
+					}
+					if pd.verdict == "" {
+						switch {
+						case len(ids) == 0:
+							pd.verdict = "retr"
+						case succ:
+							pd.verdict = "ok"
+						default:
+							pd.verdict = "fatal"
+						}
+					}
+					break
+				}
+			}
+			if len(ids) == 0 {
+				pd.app = false
+				if pd.verdict == "ok" {
+					pd.verdict = "retr"
+				}
+			}
+			pends = append(pends, pd)
+			pendAt[i] = pd
+		}
+		if r := sysMatchBatches(res, part, pends); r != "" {
+			return nil, 0, 0, r
+		}
+	}
+	// The model appends the bounces of one worker step to the retries queue atomically, in the order of the
+	// steps; the real order of entry into p.retries is the order of the channel sends, which the hooks of two
+	// concurrently bouncing workers do not determine - but the dispatcher reveals it (d.pass of the retried
+	// tokens).  If the two orders differ the run is not translated (another order of the same worker steps, or
+	// an interleaving of two workers' bounces that the model's atomic steps cannot express).
+	if r := sysRetryOrder(ev, P); r != "" {
+		return nil, 0, 0, r
 	}
 	for i, e := range ev {
 		switch e.Kind {
@@ -352,73 +465,15 @@ func SysLines(res *Result, part int32) (ops []string, workers int, note string) 
 				}
 			}
 		case "bp.handover":
-			T := e.A
-			w, ok := pl.tagW[T]
-			if !ok {
+			pd := pendAt[i]
+			if pd == nil {
 				continue
 			}
-			emit("handover %d", w)
-			// the set: the k-th bp.sent group of this worker belongs to its k-th handover (the bridge goroutine may
-			// report the set before or after the run loop reports the handover)
-			var ids []int
-			if k := handovers[T]; k < len(sentGroups[T]) {
-				ids = sentGroups[T][k]
+			if !pd.handed {
+				emit("handover %d", pd.w)
+				pd.handed = true
 			}
-			handovers[T]++
-			pd := &sysPend{w: w, reqNo: 1 << 30, broker: T / 4096, verdict: "conn"}
-			if len(ids) > 0 {
-				for bi, b := range res.Batches {
-					if usedBatch[bi] || b.Partition != part || int(b.Broker) != T/4096 || len(b.Records) != len(ids) {
-						continue
-					}
-					same := true
-					for x := range ids {
-						if idOfRecord(b.Records[x]) != ids[x] {
-							same = false
-						}
-					}
-					if same {
-						usedBatch[bi], pd.reqNo, pd.app = true, b.ReqNo, b.Appended
-						break
-					}
-				}
-			}
-			// the verdict: what the worker does after the answer has arrived
-			for j := i + 1; j < len(ev); j++ {
-				if ev[j].Kind == "bp.resp.end" && ev[j].A == T {
-					pd.verdict = ""
-					succ := false
-					for x := j + 1; x < nextInput(T, j); x++ {
-						switch {
-						case ev[x].Kind == "bp.closing" && ev[x].A == T:
-							pd.verdict = "conn"
-						case ev[x].Kind == "bp.verdict" && ev[x].B == T && ev[x].P == P && pd.verdict == "":
-							pd.verdict = sysClass(ev[x].A)
-						case ev[x].Kind == "ret.succ" && ev[x].P == P:
-							succ = true
-						}
-					}
-					if pd.verdict == "" {
-						switch {
-						case len(ids) == 0:
-							pd.verdict = "retr"
-						case succ:
-							pd.verdict = "ok"
-						default:
-							pd.verdict = "fatal"
-						}
-					}
-					break
-				}
-			}
-			if len(ids) == 0 {
-				pd.app = false
-				if pd.verdict == "ok" {
-					pd.verdict = "retr"
-				}
-			}
-			pend = append(pend, pd)
-			curPend[T] = pd
+			curPend[e.A] = pd
 		case "bp.resp.end":
 			T := e.A
 			w, ok := pl.tagW[T]
@@ -426,7 +481,9 @@ func SysLines(res *Result, part int32) (ops []string, workers int, note string) 
 				continue
 			}
 			if pd := curPend[T]; pd != nil {
-				flushUpTo(pd.reqNo)
+				if pd.reqNo < 1<<30 {
+					flushUpTo(pd.reqNo, i)
+				}
 				issue(pd)
 				delete(curPend, T)
 			}
@@ -442,7 +499,10 @@ func SysLines(res *Result, part int32) (ops []string, workers int, note string) 
 			emit("deliver %d %d", w, still)
 		}
 	}
-	flushUpTo(1<<30 - 1)
+	flushUpTo(1<<30-1, len(ev))
+	if undetermined != "" {
+		return nil, 0, 0, undetermined
+	}
 	var logIDs, succ, errs []string
 	for _, r := range res.Logs[part] {
 		logIDs = append(logIDs, strconv.Itoa(idOfRecord(r)))
@@ -464,5 +524,156 @@ func SysLines(res *Result, part int32) (ops []string, workers int, note string) 
 		return strings.Join(l, ",")
 	}
 	emit("end %s %s %s", j(logIDs), j(succ), j(errs))
-	return ops, pl.workers, ""
+	return ops, pl.workers, early, ""
+}
+
+type sysRK struct {
+	id, r int
+	k     string
+}
+
+// sysRetryOrder compares the order in which the model would fill the retries queue (bounces grouped by the worker
+// step that causes them, steps in the order of their hook events) with the order in which the dispatcher took the
+// retried tokens; "" when they agree (as far as the dispatcher got).
+func sysRetryOrder(ev []Event, P int) string {
+	holder, finHolder, lastInput := map[int]int{}, map[int]int{}, map[int]int{}
+	owned := map[int][]sysRK{}
+	tagOf := map[sysRK]int{}
+	var disp []sysRK
+	for i, e := range ev {
+		switch e.Kind {
+		case "bp.recv":
+			if e.P == P {
+				switch kindOfFlags(e.A % 8) {
+				case "d":
+					holder[e.ID] = e.B
+				case "f":
+					finHolder[e.A/8] = e.B
+				}
+			}
+			lastInput[e.B] = i
+		case "bp.handover", "bp.resp", "bp.resp.end":
+			lastInput[e.A] = i
+		case "retry":
+			if e.P != P {
+				continue
+			}
+			k := kindOfFlags(e.B)
+			T, ok := 0, false
+			if k == "f" {
+				T, ok = finHolder[e.A-1]
+			} else {
+				T, ok = holder[e.ID]
+			}
+			if !ok {
+				return "retry-without-holder"
+			}
+			owned[lastInput[T]] = append(owned[lastInput[T]], sysRK{e.ID, e.A, k})
+			tagOf[sysRK{e.ID, e.A, k}] = T
+		case "d.pass":
+			if e.P == P {
+				if k := kindOfFlags(e.B); e.A >= 1 || k == "f" {
+					disp = append(disp, sysRK{e.ID, e.A, k})
+				}
+			}
+		}
+	}
+	var model []sysRK
+	for i := range ev {
+		model = append(model, owned[i]...)
+	}
+	agree := true
+	for n, d := range disp {
+		if n >= len(model) || model[n] != d {
+			agree = false
+			break
+		}
+	}
+	if agree {
+		return ""
+	}
+	// the orders differ: a race between the sends of different workers is possible only if every single worker's
+	// bounces are taken in the order it sent them (one goroutine: hook order = send order); anything else is
+	// left to the model, which rejects it
+	perModel, perDisp := map[int][]sysRK{}, map[int][]sysRK{}
+	for _, m := range model {
+		perModel[tagOf[m]] = append(perModel[tagOf[m]], m)
+	}
+	for _, d := range disp {
+		T, ok := tagOf[d]
+		if !ok {
+			return ""
+		}
+		perDisp[T] = append(perDisp[T], d)
+	}
+	for T, l := range perDisp {
+		for n, d := range l {
+			if n >= len(perModel[T]) || perModel[T][n] != d {
+				return ""
+			}
+		}
+	}
+	return "retry-order-race"
+}
+
+// sysMatchBatches decides which produce request of the simulated cluster carried which set.  Sets with the same
+// records sent to the same broker (a retried set that finds the same leader) are told apart by their order; a set
+// that ended in a connection error may or may not have reached the cluster, so the assignment is made only when
+// the counts leave no choice - otherwise the scenario is not translated.
+func sysMatchBatches(res *Result, part int32, pends []*sysPend) string {
+	key := func(broker int, ids []int) string { return fmt.Sprint(broker, ids) }
+	batches := map[string][]int{} // key -> indices into res.Batches, by request number
+	var order []int
+	for bi, b := range res.Batches {
+		if b.Partition == part {
+			order = append(order, bi)
+		}
+	}
+	sort.SliceStable(order, func(i, j int) bool { return res.Batches[order[i]].ReqNo < res.Batches[order[j]].ReqNo })
+	for _, bi := range order {
+		b := res.Batches[bi]
+		var ids []int
+		for _, r := range b.Records {
+			ids = append(ids, idOfRecord(r))
+		}
+		k := key(int(b.Broker), ids)
+		batches[k] = append(batches[k], bi)
+	}
+	groups := map[string][]*sysPend{}
+	var keys []string
+	for _, p := range pends {
+		if len(p.ids) == 0 {
+			continue
+		}
+		k := key(p.broker, p.ids)
+		if _, ok := groups[k]; !ok {
+			keys = append(keys, k)
+		}
+		groups[k] = append(groups[k], p)
+	}
+	for _, k := range keys {
+		g, bs := groups[k], batches[k]
+		answered := 0
+		for _, p := range g {
+			if p.verdict != "conn" {
+				answered++
+			}
+		}
+		all := len(bs) == len(g)
+		if !all && len(bs) != answered {
+			return "batch-matching-ambiguous"
+		}
+		j := 0
+		for _, p := range g {
+			if all || p.verdict != "conn" {
+				b := res.Batches[bs[j]]
+				j++
+				p.reqNo, p.app = b.ReqNo, b.Appended
+				if p.verdict == "ok" && !b.Appended {
+					return "batch-matching-ambiguous"
+				}
+			}
+		}
+	}
+	return ""
 }
